@@ -1218,4 +1218,90 @@ example : (norm ["rem Dsr put CF3 with C1 c2 = ! d=1".toList, "  on c1 C2 =".toL
     (norm ["REM DSR PUT CF3 WITH C1 C2 = ! D=1".toList, "  ON C1 C2 =".toList, " PART 2".toList, "END".toList]).map upAll :=
   case_invariance _ _ (by decide)
 
+/-! ### include files: layout changes inside a spliced block (wave 4) -/
+
+theorem normAux_append (y : List Line) : ∀ (x : List Line) (st : Option (List Token)) (a : List (List Token)),
+    normAux st x = some a → normAux st (x ++ y) = (normAux none y).map (a ++ ·) := by
+  intro x
+  induction x with
+  | nil =>
+    intro st a h
+    cases st with
+    | none =>
+      simp [normAux] at h
+      subst h
+      simp
+    | some acc => simp [normAux] at h
+  | cons l rest ih =>
+    intro st a h
+    cases st with
+    | none =>
+      simp only [List.cons_append, normAux] at h ⊢
+      by_cases hs : skip l = true
+      · simp only [hs, if_true] at h ⊢
+        exact ih none a h
+      · simp only [hs] at h ⊢
+        by_cases hc : isContLine l = true
+        · simp only [hc, if_true] at h ⊢
+          by_cases he : (ptoks l).isEmpty = true
+          · simp [he] at h
+          · simp only [he] at h ⊢
+            exact ih _ a h
+        · simp only [hc] at h ⊢
+          cases hr : normAux none rest with
+          | none => simp [hr] at h
+          | some a' =>
+            simp [hr] at h
+            subst h
+            have := ih none a' hr
+            simp [this]
+            cases normAux none y <;> simp
+    | some acc =>
+      simp only [List.cons_append, normAux] at h ⊢
+      by_cases hi : indented l = true
+      · simp only [hi] at h ⊢
+        by_cases hc : isContLine l = true
+        · simp only [hc, if_true] at h ⊢
+          simpa using ih _ a (by simpa using h)
+        · simp only [hc] at h ⊢
+          cases hr : normAux none rest with
+          | none => simp [hr] at h
+          | some a' =>
+            simp [hr] at h
+            subst h
+            have := ih none a' hr
+            simp [this]
+            cases normAux none y <;> simp
+      · simp [hi] at h
+
+/-- `norm` of a spliced line list: a complete (valid) block in front contributes its logical lines, the rest is read as if
+    it stood alone. -/
+theorem norm_append (x y : List Line) (a : List (List Token)) (h : norm x = some a) :
+    norm (x ++ y) = (norm y).map (a ++ ·) := normAux_append y x none a h
+
+/-- INCLUDE FILES (`read_file`: the lines of a '+filename' include file are spliced into the line list behind the '+' line,
+    `_find_included_files`). If the text in front of the include file is a valid layout (`hpre`: no instruction is left
+    open where the '+' line stands - run on the real code: a '+' line behind a continuation marker is glued onto that
+    instruction and is no include at all) and two versions of the include file are valid layouts with the same logical lines
+    (`hinc`, `hinc'` - e.g. related by `LayoutStep`s, theorem `layout_preserves_norm`), then the two spliced files have the same
+    logical lines, whatever follows. No bound on sizes; `post` need not be valid (then both sides are `none`). -/
+theorem include_layout_invariance (pre inc inc' post : List Line) (p i : List (List Token))
+    (hpre : norm pre = some p) (hinc : norm inc = some i) (hinc' : norm inc' = some i) :
+    norm (pre ++ (inc ++ post)) = norm (pre ++ (inc' ++ post)) := by
+  rw [norm_append pre _ p hpre, norm_append pre _ p hpre, norm_append inc post i hinc, norm_append inc' post i hinc']
+
+/-- the hypotheses are met by a non-trivial input: an include file whose first line is an indented comment line that would
+    parse as an instruction, and whose instruction is continued, against the plain one -/
+example : norm ["+r.inc".toList] = some [["+R.INC".toList]] ∧
+    norm ["   DFIX 1.43 0.02 O1 C1".toList, "SADI C1 C2 = ! a".toList, "  C1 C3".toList, "".toList] =
+      some [["SADI".toList, "C1".toList, "C2".toList, "C1".toList, "C3".toList]] ∧
+    norm ["SADI C1 C2 C1 C3".toList] = some [["SADI".toList, "C1".toList, "C2".toList, "C1".toList, "C3".toList]] := by
+  decide
+
+/-- `hpre` cannot be dropped: an open instruction in front swallows the first line of the block -/
+theorem include_needs_complete_prefix :
+    norm ("DFIX 1.5 C1 =".toList :: (["  C2".toList] ++ [])) ≠ norm ("DFIX 1.5 C1 =".toList :: ([" ".toList, "  C2".toList] ++ [])) := by
+  decide
+
+
 end Shelx.C05
